@@ -134,6 +134,9 @@ func (obj *SparseInt16Vector) SET(x *SparseInt16Vector) {
   }
 }
 func (obj *SparseInt16Vector) SLICE(i, j int) *SparseInt16Vector {
+  if i < 0 || i > j || j > obj.n {
+    panic(fmt.Errorf("slice (%d:%d) out of bounds for vector of dimension %d", i, j, obj.n))
+  }
   r := nilSparseInt16Vector(j-i)
   for it := obj.indexIteratorFrom(i); it.Ok(); it.Next() {
     if it.Get() >= j {
